@@ -664,7 +664,7 @@ int run()
     hb::describer() = describe;
     const int depth1 = vx::thorough() ? 12 : 6, depth2 = vx::thorough() ? 7 : 4;
     const int de = getenv("C64_DE") ? atoi(getenv("C64_DE")) : (vx::thorough() ? 4 : 3);
-    const int d3 = getenv("C64_D3") ? atoi(getenv("C64_D3")) : (vx::thorough() ? 8 : 6);
+    const int d3 = getenv("C64_D3") ? atoi(getenv("C64_D3")) : 8; // mode 3 reaches its fixpoint (315 canonical states) at depth 7
     const int d1 = getenv("C64_D1") ? atoi(getenv("C64_D1")) : depth1, d2 = getenv("C64_D2") ? atoi(getenv("C64_D2")) : depth2;
 
     if (!vx::ctx().replay.empty()) {
